@@ -176,6 +176,43 @@ def _run_case_file(path, timeout):
     return r.returncode, r.stdout
 
 
+MAX_SHARD_CHARS = 250000
+
+
+def _shards(exprs, shard):
+    """consecutive index ranges of at most `shard` expressions and about MAX_SHARD_CHARS characters (long literals
+    get files of their own, so that no single file takes minutes)"""
+    out, start, chars = [], 0, 0
+    for i, e in enumerate(exprs):
+        if i > start and (i - start >= shard or chars + len(e) > MAX_SHARD_CHARS):
+            out.append((start, i)); start, chars = i, 0
+        chars += len(e)
+    if start < len(exprs):
+        out.append((start, len(exprs)))
+    return out
+
+
+def _eval_range(write_file, parse, lo, hi, timeout, depth=0):
+    """evaluate expressions lo..hi in one file; when coqc does not finish in time (a loaded machine, an expensive
+    shard) the range is split in two and each half gets twice the time, down to single expressions"""
+    fn = write_file(lo, hi)
+    try:
+        rc, out = _run_case_file(fn, timeout)
+    except subprocess.TimeoutExpired:
+        try: os.remove(fn)
+        except OSError: pass
+        if hi - lo <= 1 or depth >= 4:
+            raise HarnessError('coqc did not finish within %d s on expression(s) %d..%d' % (timeout, lo, hi - 1))
+        mid = (lo + hi) // 2
+        return _eval_range(write_file, parse, lo, mid, timeout * 2, depth + 1) + _eval_range(write_file, parse, mid, hi, timeout * 2, depth + 1)
+    if rc != 0:
+        raise HarnessError('coqc failed on %s:\n%s' % (fn, out[-3000:]))
+    r = parse(lo, fn, out)
+    try: os.remove(fn)
+    except OSError: pass
+    return r
+
+
 def coq_bools(name, imports, exprs, defs='', shard=300, timeout=900, keep=False):
     """Evaluate a list of closed Coq boolean expressions with vm_compute.
     Returns the list of indices whose value is false.  Raises HarnessError if Coq rejects a file
@@ -183,31 +220,27 @@ def coq_bools(name, imports, exprs, defs='', shard=300, timeout=900, keep=False)
     if not exprs:
         return []
     os.makedirs(CASES, exist_ok=True)
-    jobs = []
-    for k in range(0, len(exprs), shard):
+
+    def write_file(lo, hi):
         _case_counter[0] += 1
         fn = os.path.join(CASES, 'c_%s_%d_%d.v' % (re.sub(r'\W', '_', name), os.getpid(), _case_counter[0]))
         body = ['From PV Require Import %s.' % imports, 'Local Open Scope N_scope.', defs,
                 'Definition cs : list bool := [']
-        body.append(';\n'.join('(%s)' % e for e in exprs[k:k + shard]))
+        body.append(';\n'.join('(%s)' % e for e in exprs[lo:hi]))
         body.append('].\nEval vm_compute in (failing cs).\n')
         with open(fn, 'w') as f:
             f.write('\n'.join(body))
-        jobs.append((k, fn))
-    bad = []
-    with ThreadPoolExecutor(max_workers=NPROC) as ex:
-        results = list(ex.map(lambda j: _run_case_file(j[1], timeout), jobs))
-    for (k, fn), (rc, out) in zip(jobs, results):
-        if rc != 0:
-            raise HarnessError('coqc failed on %s:\n%s' % (fn, out[-3000:]))
+        return fn
+
+    def parse(lo, fn, out):
         m = re.search(r'=\s*\[(.*?)\]\s*:\s*list nat', out, re.S)
         if not m:
             raise HarnessError('cannot parse coqc output for %s:\n%s' % (fn, out[-2000:]))
-        bad += [k + int(x) for x in re.findall(r'\d+', m.group(1).replace('%nat', ''))]
-        if not keep:
-            try: os.remove(fn)
-            except OSError: pass
-    return sorted(bad)
+        return [lo + int(x) for x in re.findall(r'\d+', m.group(1).replace('%nat', ''))]
+
+    with ThreadPoolExecutor(max_workers=NPROC) as ex:
+        results = list(ex.map(lambda r: _eval_range(write_file, parse, r[0], r[1], timeout), _shards(exprs, shard)))
+    return sorted(x for r in results for x in r)
 
 
 def coq_codes(name, imports, exprs, defs='', shard=None, timeout=900):
@@ -218,31 +251,27 @@ def coq_codes(name, imports, exprs, defs='', shard=None, timeout=900):
     if shard is None:
         shard = max(25, min(300, len(exprs) // (2 * NPROC) + 1))
     os.makedirs(CASES, exist_ok=True)
-    jobs = []
-    for k in range(0, len(exprs), shard):
+
+    def write_file(lo, hi):
         _case_counter[0] += 1
         fn = os.path.join(CASES, 'k_%s_%d_%d.v' % (re.sub(r'\W', '_', name), os.getpid(), _case_counter[0]))
         body = ['From PV Require Import %s.' % imports, 'Local Open Scope N_scope.', defs,
                 'Definition cs : list N := [']
-        body.append(';\n'.join('(%s)' % e for e in exprs[k:k + shard]))
+        body.append(';\n'.join('(%s)' % e for e in exprs[lo:hi]))
         body.append('].\nEval vm_compute in (nonzero cs).\n')
         with open(fn, 'w') as f:
             f.write('\n'.join(body))
-        jobs.append((k, fn))
-    res = {}
-    with ThreadPoolExecutor(max_workers=NPROC) as ex:
-        results = list(ex.map(lambda j: _run_case_file(j[1], timeout), jobs))
-    for (k, fn), (rc, out) in zip(jobs, results):
-        if rc != 0:
-            raise HarnessError('coqc failed on %s:\n%s' % (fn, out[-3000:]))
+        return fn
+
+    def parse(lo, fn, out):
         m = re.search(r'=\s*\[(.*?)\]\s*:\s*list \(nat \* N\)', out, re.S)
         if not m:
             raise HarnessError('cannot parse coqc output for %s:\n%s' % (fn, out[-2000:]))
-        for a, b in re.findall(r'\((\d+)(?:%nat)?\s*,\s*(\d+)(?:%N)?\)', m.group(1)):
-            res[k + int(a)] = int(b)
-        try: os.remove(fn)
-        except OSError: pass
-    return res
+        return [(lo + int(a), int(b)) for a, b in re.findall(r'\((\d+)(?:%nat)?\s*,\s*(\d+)(?:%N)?\)', m.group(1))]
+
+    with ThreadPoolExecutor(max_workers=NPROC) as ex:
+        results = list(ex.map(lambda r: _eval_range(write_file, parse, r[0], r[1], timeout), _shards(exprs, shard)))
+    return dict(x for r in results for x in r)
 
 
 def coq_show(imports, expr, defs='', timeout=300):
